@@ -18,7 +18,8 @@ META = {
             "every transition of every action sequence up to the bound; layouts are enumerated for every size around every page "
             "boundary and compared call-by-call with the documented layout.",
     "note": "Linux x86-64, 4 KiB pages. Trusted: the layout model in harness/c17.c, the kernel's EFAULT semantics. mlock failures are "
-            "tolerated as the implementation documents.",
+            "an enumerated environment answer: the edge-size layout sweep, every protection sequence, the canary and history checks run again "
+            "with mlock() failing (ENOMEM; thorough also EPERM, EAGAIN) and every guarantee must hold unchanged.",
 }
 
 
